@@ -100,6 +100,20 @@ Theorem C07_address_absent : forall pre w post,
      (b + 1 = length pre + length w /\ rest = 58%N :: post /\ colon_ws w post)).
 Proof. exact address_absent. Qed.
 
+(* common/event (EventOnOfferCreated, EventOnBrokerRendezvous, EventOnSnowflakeConnectionFailed): String() is a
+   fixed text followed by Scrub of the error text; no byte of a delimited address of the error text takes part in it.
+   (The client hands these strings to tor's log with pt.Log; lib/checks/c07.py builds the error chains of Go's
+   net / net/url packages and compares String() with event_string.) *)
+Theorem C07_event_string_covered : forall ty pre w post,
+  matches addr_spec w -> left_ok pre -> right_ok post -> ~ dotted_run pre w ->
+  exists a b sp1 sp2 rest,
+    replaced_spans (pre ++ w ++ post) = sp1 ++ (a, b) :: sp2 /\ a <= length pre /\
+    event_string full_patterns ty (pre ++ w ++ post) =
+      event_prefix ty ++ render (firstn a pre) 0 sp1 ++ scrubbed ++ render rest b sp2 /\
+    ((length pre + length w <= b /\ rest = skipn (b - (length pre + length w)) post) \/
+     (b + 1 = length pre + length w /\ rest = 58%N :: post /\ colon_ws w post)).
+Proof. exact event_string_covered. Qed.
+
 (* the writer: what reaches the sink depends only on the concatenation of the writes; it is the
    per-line scrubbed image of the complete lines, in order; the rest stays buffered *)
 Theorem C07_write_split_invariant : forall ws,
@@ -225,6 +239,11 @@ Qed.
 Example C07_r2_dotted_run_sometimes_covered :
   sc2 (bs "a 1.2.3.4.5.6.7.8 ") = bs "a [scrubbed].[scrubbed] ".
 Proof. exact r2_dotted_run_sometimes_covered. Qed.
+
+Example C07_event_string_example :
+  event_string full_patterns 1 (bs "dial tcp: lookup x.example on [2001:db8::53]:53: no such host") =
+  bs "broker failure dial tcp: lookup x.example on [scrubbed]: no such host".
+Proof. vm_compute. reflexivity. Qed.
 
 Example C07_disj_nonvacuous : RegexDisj.disj rest_spec (after gA rest_spec) = true.
 Proof. exact g_K2. Qed.
